@@ -21,20 +21,20 @@ Int8(x)   == LET y == x % 256 IN IF y >= 128 THEN y - 256 ELSE y
 Uint16(x) == x % 65536
 Int16(x)  == LET y == x % 65536 IN IF y >= 32768 THEN y - 65536 ELSE y
 Shr(x, k) == x \div (2 ^ k)                \* >> on a signed value is floor division (\div floors)
-\* bitwise operators on two's complement numbers of `bits` bits (bits <= 26 keeps TLC in range)
-RECURSIVE NatBits(_, _, _, _, _)
-NatBits(op, x, y, k, acc) ==                  \* x, y naturals; k bits still to do; acc built msb first
-  IF k = 0 THEN acc
-  ELSE LET p  == 2 ^ (k - 1)
-           bx == (x \div p) % 2
-           by == (y \div p) % 2
-           b  == CASE op = "or" -> IF bx + by > 0 THEN 1 ELSE 0
-                   [] op = "andnot" -> IF bx = 1 /\ by = 0 THEN 1 ELSE 0
-       IN NatBits(op, x, y, k - 1, acc + b * p)
-Signed(u, bits) == IF u >= 2 ^ (bits - 1) THEN u - 2 ^ bits ELSE u
-BitOp(op, x, y, bits) == Signed(NatBits(op, x % (2 ^ bits), y % (2 ^ bits), bits, 0), bits)
-Or(x, y)     == BitOp("or", x, y, 26)        \* on Go int / uint32 values that fit 25 bits
-AndNot(x, y) == BitOp("andnot", x, y, 26)
+\* bitwise | and &^ on naturals, bit by bit from the least significant end
+RECURSIVE NatOr(_, _)
+NatOr(x, y) == IF x = 0 THEN y ELSE IF y = 0 THEN x
+               ELSE 2 * NatOr(x \div 2, y \div 2) + (IF (x % 2) + (y % 2) > 0 THEN 1 ELSE 0)
+RECURSIVE NatAndNot(_, _)
+NatAndNot(x, y) == IF x = 0 THEN 0 ELSE IF y = 0 THEN x
+                   ELSE 2 * NatAndNot(x \div 2, y \div 2) + (IF (x % 2) = 1 /\ (y % 2) = 0 THEN 1 ELSE 0)
+\* ... and on two's complement numbers of `size` = 2^bits (256 for int8, 2^26 for Go int / uint32
+\* values known to fit 25 bits; TLC integers are 32-bit)
+Signed(u, size) == IF 2 * u >= size THEN u - size ELSE u
+OrW(x, y, size)     == Signed(NatOr(x % size, y % size), size)
+AndNotW(x, y, size) == Signed(NatAndNot(x % size, y % size), size)
+Or(x, y)     == OrW(x, y, 67108864)
+AndNot(x, y) == AndNotW(x, y, 67108864)
 
 (* ---- builder.go: encode*,  vm.go: decode*  (argument and result types as in the code) ---- *)
 \* func encodeInt16(v int16) (a, b int8) { a = int8(v >> 8); b = int8(v) }
@@ -52,7 +52,7 @@ DecodeUint24(a, b, c) == Or(Or(Uint8(a) * 65536, Uint8(b) * 256), Uint8(c))
 \* func encodeValueIndex(t registerType, i int) (a, b int8) { a, b = encodeInt16(int16(i)); a |= int8(t << 6) }
 \* (registerType is an int8: t << 6 wraps to -128 for t = 2 and to -64 for t = 3)
 EncodeValueIndex(t, i) ==
-  LET ab == EncodeInt16(Int16(i)) IN <<Int8(BitOp("or", ab[1], Int8(t * 64), 8)), ab[2]>>
+  LET ab == EncodeInt16(Int16(i)) IN <<Int8(OrW(ab[1], Int8(t * 64), 256)), ab[2]>>
 \* func decodeValueIndex(a, b int8) (t registerType, i int) {
 \*     return registerType(uint8(a) >> 6), int(decodeUint16(a, b) &^ (3 << 14)) }
 DecodeValueIndex(a, b) == <<Shr(Uint8(a), 6), AndNot(DecodeUint16(a, b), 3 * 16384)>>
@@ -61,7 +61,7 @@ DecodeValueIndex(a, b) == <<Shr(Uint8(a), 6), AndNot(DecodeUint16(a, b), 3 * 163
 CONSTANTS MaxRegisters,     \* builder.go maxRegistersCount        (127)
           MaxTable8,        \* maxTypesCount, max{Native,Scriggo}FunctionsCount, max{String,General}ValuesCount, maxFieldIndexesCount (256)
           MaxValues14,      \* max{Int,Float}ValuesCount and the index range of OpLoad (16384)
-          ModelPaths        \* "builder": the allocation paths of builder.go;  "callsites": the other paths (below)
+          ModelPaths        \* "callsites": the allocation paths outside builder.go (below); anything else: builder.go
 
 RegKinds == {"int", "float", "string", "general"}
 Tables8  == {"types", "nativefuncs", "scriggofuncs", "stringvalues", "generalvalues", "fieldindexes"}
@@ -77,10 +77,10 @@ RegType(k) == CASE k = "int" -> 0 [] k = "float" -> 1 [] k = "string" -> 2 [] k 
 \*                - the compiler itself reads the field-index operand back WITHOUT the uint8 cast
 BuilderResources == {<<"reg", k>> : k \in RegKinds} \cup {<<"tab8", t>> : t \in Tables8} \cup {<<"val", k>> : k \in RegKinds}
 CallsiteResources == {<<"tab8nolimit", "scriggofuncs">>, <<"tab8nolimit", "nativefuncs">>, <<"tab8signed", "fieldindexes">>}
-Resources == IF ModelPaths = "builder" THEN BuilderResources ELSE CallsiteResources
+Resources == IF ModelPaths = "callsites" THEN CallsiteResources ELSE BuilderResources
 
 NoLimit == 1000000
-Max(r) == CASE r[1] = "reg" -> MaxRegisters [] r[1] \in {"tab8", "tab8signed"} -> MaxTable8
+LimitOf(r) == CASE r[1] = "reg" -> MaxRegisters [] r[1] \in {"tab8", "tab8signed"} -> MaxTable8
             [] r[1] = "val" -> MaxValues14 [] r[1] = "tab8nolimit" -> NoLimit
 \* what the operand encodings can hold, whatever the limit constants say
 Capacity(r) == CASE r[1] = "reg" -> 127 [] r[1] \in {"tab8", "tab8signed", "tab8nolimit"} -> 256 [] r[1] = "val" -> 16384
@@ -92,9 +92,9 @@ vars == <<res, cnt, refused>>
 
 Init == res \in Resources /\ cnt = 0 /\ refused = FALSE
 \* `if r == max { panic(newLimitExceededError(..)) }`
-AllocRefuse == ~refused /\ cnt = Max(res) /\ refused' = TRUE /\ UNCHANGED <<res, cnt>>
+AllocRefuse == ~refused /\ cnt = LimitOf(res) /\ refused' = TRUE /\ UNCHANGED <<res, cnt>>
 \* `table = append(table, x); return int8(r)`   /   `fb.allocRegister(t, num+1); return num + 1`
-AllocOk == ~refused /\ cnt # Max(res) /\ cnt' = cnt + 1 /\ UNCHANGED <<res, refused>>
+AllocOk == ~refused /\ cnt # LimitOf(res) /\ cnt' = cnt + 1 /\ UNCHANGED <<res, refused>>
 Next == AllocOk \/ AllocRefuse
 \* exploration bound for paths that never refuse
 Bounded == cnt <= Capacity(res) + 4
@@ -109,13 +109,14 @@ Tab8AsSeenSigned(r) == Int8(r)
 \* OpLoad: encodeValueIndex at build time, decodeValueIndex at run time
 ValAsSeenByVM(t, i) == LET ab == EncodeValueIndex(t, i) IN DecodeValueIndex(ab[1], ab[2])
 
-Faithful ==
-  cnt > 0 =>
-    CASE res[1] = "reg"  -> RegAsSeenByVM(cnt) = cnt /\ RegAsSeenByVM(cnt) > 0
-      [] res[1] \in {"tab8", "tab8nolimit"} -> Tab8AsSeenByVM(cnt - 1) = cnt - 1
-      [] res[1] = "tab8signed" -> Tab8AsSeenSigned(cnt - 1) = cnt - 1
-      [] res[1] = "val"  -> ValAsSeenByVM(RegType(res[2]), cnt - 1) = <<RegType(res[2]), cnt - 1>>
-RefusesAtLimit == refused => cnt = Max(res)
+FaithfulAt(r, c) ==
+  c > 0 =>
+    CASE r[1] = "reg"  -> RegAsSeenByVM(c) = c /\ RegAsSeenByVM(c) > 0
+      [] r[1] \in {"tab8", "tab8nolimit"} -> Tab8AsSeenByVM(c - 1) = c - 1
+      [] r[1] = "tab8signed" -> Tab8AsSeenSigned(c - 1) = c - 1
+      [] r[1] = "val"  -> ValAsSeenByVM(RegType(r[2]), c - 1) = <<RegType(r[2]), c - 1>>
+Faithful == FaithfulAt(res, cnt)
+RefusesAtLimit == refused => cnt = LimitOf(res)
 NeverBeyondCapacity == cnt <= Capacity(res)
 
 (* ---- addresses: 16-bit variable indexes and 24-bit jump targets (constant-level checks) ---- *)
